@@ -31,6 +31,6 @@ func TestC35(t *testing.T) {
 		"a removal/update applied later on behalf of a previous owner's still-pending request is recorded (registry_*_on_request_of_previous_owner), not judged here (C33 judges consumed requests)")
 	r.Require("registration_request_for_free_id_ok", r.N(200, 3000))
 	r.Assume("'registered at most once at a time' is also applied to requests: a registerSideChain call must not succeed for an id that is registered at that moment " +
-		"(otherwise the id is in the process of being registered twice; after dbc2217 the approval would be refused, so the registry itself stays intact)")
+		"(otherwise the id is in the process of being registered twice; after 175c66d the approval would be refused, so the registry itself stays intact)")
 	r.Assume("an update request replaced by its owner before approval: the record must equal the request pending when the approval took effect")
 }
